@@ -276,6 +276,23 @@ def _enriched(repo, tmp):
     bsp.pakfile.writestr('materials/test/a.vmt', b'"LightmappedGeneric"\n{\n}\n')
     path = os.path.join(tmp, 'enriched.bsp')
     bsp.save(path)
+    # second pass on a fresh object, with no view parsed, so the raw lumps written by hand are saved as they are
+    bsp = B.BSP(path)
+    # texture names that are prefixes / infixes / suffixes of earlier ones (common in real maps): rewritten at the raw
+    # lump level, by hand, so that no library writer is involved in building this input
+    import struct
+    table_l = bsp.lumps[B.BSP_LUMPS.TEXDATA_STRING_TABLE]
+    data_l = bsp.lumps[B.BSP_LUMPS.TEXDATA_STRING_DATA]
+    offs = struct.unpack(f'<{len(table_l.data) // 4}i', table_l.data)
+    names = [bytes(data_l.data)[o:bytes(data_l.data).index(b'\0', o)] for o in offs]
+    special = [b'brick/brickwall001a_b', b'brick/brickwall001a', b'xnodrawy', b'nodraw', b'tools/nodraw']
+    names += special        # (extra table entries; texdata refers to names by index, the new ones are simply unused)
+    block, table = b'', b''
+    for nm in names:
+        table += struct.pack('<i', len(block))
+        block += nm + b'\0'
+    table_l.data, data_l.data = table, block
+    bsp.save(path)
     return path
 
 
